@@ -5,6 +5,7 @@ package fault
 
 import (
 	"encoding/hex"
+	"errors"
 	"fmt"
 	"io"
 
@@ -18,21 +19,24 @@ import (
 )
 
 type Scenario struct {
-	Side        string   `json:"side"`              // sink | visitor
-	Target      string   `json:"target"`            // encoder format or producer name
-	Options     []string `json:"options,omitempty"` // json encoder options
-	Stream      string   `json:"stream,omitempty"`  // event ops (sink side, adapters)
-	Doc         string   `json:"doc_hex,omitempty"` // parser producers
-	Entry       string   `json:"entry,omitempty"`
-	Cuts        []int    `json:"cuts,omitempty"`
-	Reads       []int    `json:"read_sizes,omitempty"`
-	BufSize     int      `json:"bufsize,omitempty"`
-	WriterKind  int      `json:"writer_kind,omitempty"` // simkit.Writer.AsWriter: 1 +io.ByteWriter, 2 +io.StringWriter, 3 both
-	Type        string   `json:"go_type,omitempty"`     // fold producers
-	Value       string   `json:"go_value,omitempty"`
-	UserFolders int      `json:"user_folders,omitempty"` // model.FolderOpts variant
-	K           int      `json:"k"`
-	Total       int      `json:"total"`
+	Side            string   `json:"side"`              // sink | visitor
+	Target          string   `json:"target"`            // encoder format or producer name
+	Options         []string `json:"options,omitempty"` // json encoder options
+	Stream          string   `json:"stream,omitempty"`  // event ops (sink side, adapters)
+	Doc             string   `json:"doc_hex,omitempty"` // parser producers
+	Entry           string   `json:"entry,omitempty"`
+	Cuts            []int    `json:"cuts,omitempty"`
+	Reads           []int    `json:"read_sizes,omitempty"`
+	BufSize         int      `json:"bufsize,omitempty"`
+	WriterKind      int      `json:"writer_kind,omitempty"` // simkit.Writer.AsWriter: 1 +io.ByteWriter, 2 +io.StringWriter, 3 both
+	Type            string   `json:"go_type,omitempty"`     // fold producers
+	Value           string   `json:"go_value,omitempty"`
+	UserFolders     int      `json:"user_folders,omitempty"` // model.FolderOpts variant
+	History         []string `json:"earlier_documents_on_this_parser,omitempty"`
+	tolerateUnfired bool
+	ReadFailsAt     int `json:"read_number_that_returns_data_and_error,omitempty"`
+	K               int `json:"k"`
+	Total           int `json:"total"`
 }
 
 type Engine struct{}
@@ -384,6 +388,12 @@ func checkProducer(x *simkit.Ctx, sc *Scenario, site string, total int, ks []int
 		if pi != nil {
 			return &simkit.Violation{Kind: "panic", Site: site + pi.Site, Detail: pi.Value + "\n" + pi.Stack, Scenario: &s}
 		}
+		if !fired && sc.tolerateUnfired {
+			// a parser left in the middle of a failed document may read the next
+			// one differently: without the k-th event there is nothing to check
+			st.Probe("event-k-not-reached-on-reused-parser")
+			continue
+		}
 		if !fired {
 			return &simkit.Violation{Kind: "harness", Site: site, Detail: fmt.Sprintf("event %d of %d was never delivered", k, total), Scenario: &s}
 		}
@@ -403,7 +413,21 @@ func checkProducer(x *simkit.Ctx, sc *Scenario, site string, total int, ks []int
 	return nil
 }
 
-var parserEntries = []string{"parse", "parsestring", "write", "reader", "decoder-bytes", "decoder-reader"}
+var parserEntries = []string{"parse", "parsestring", "write", "reader", "decoder-bytes", "decoder-reader", "reused-parser"}
+
+// swapVisitor lets one long-lived parser talk to a different visitor per document.
+type swapVisitor struct{ structform.Visitor }
+
+var errTransport = errors.New("transport failure delivered together with data")
+
+var errEarlier = errors.New("error returned by the visitor of an EARLIER document")
+
+// preDoc is a document a long-lived parser went through before the one under test.
+type preDoc struct {
+	data   []byte
+	failAt int // >= 0: that document's visitor fails at this event with errEarlier
+	str    bool
+}
 
 func parserFaults(c *simkit.Choices, x *simkit.Ctx) *simkit.Violation {
 	st := x.Stats
@@ -436,7 +460,40 @@ func parserFaults(c *simkit.Choices, x *simkit.Ctx) *simkit.Violation {
 		for i, n := 0, 1+c.N(3); i < n; i++ {
 			sc.Reads = append(sc.Reads, 1+c.N(9))
 		}
+		if c.N(3) == 0 {
+			// the transport fails too: one read returns its data TOGETHER with a
+			// non-EOF error. An event made from those bytes may still reach the
+			// visitor; if the visitor fails there, its error is the one to report
+			sc.ReadFailsAt = 1 + c.N(6)
+			sc.tolerateUnfired = true
+		}
 	}
+	var pre []preDoc
+	if sc.Entry == "reused-parser" {
+		// ONE Parser instance used through Parse/ParseString for a few earlier
+		// documents - complete ones, ones cut short, ones whose visitor failed
+		// with another error value - and then for the document under test
+		for i, n := 0, 1+c.N(3); i < n; i++ {
+			d := common.GenDoc(c, f, o, 1).Bytes
+			pd := preDoc{data: d, failAt: -1, str: c.Bool()}
+			switch c.N(3) {
+			case 0:
+				if len(d) > 1 {
+					pd.data = d[:1+c.N(len(d)-1)]
+				}
+				sc.History = append(sc.History, "cut short: "+hex.EncodeToString(pd.data))
+			case 1:
+				pd.failAt = c.N(4)
+				sc.History = append(sc.History, fmt.Sprintf("visitor fails at event %d: %s", pd.failAt, hex.EncodeToString(d)))
+			default:
+				sc.History = append(sc.History, "complete: "+hex.EncodeToString(d))
+			}
+			pre = append(pre, pd)
+		}
+		sc.tolerateUnfired = true
+	}
+	lastStr := c.Bool()
+	readFailsAt := 0
 	noRef := c.N(5) == 0
 	run := func(t *simkit.Tap) error {
 		var vs structform.Visitor = t
@@ -445,6 +502,36 @@ func parserFaults(c *simkit.Choices, x *simkit.Ctx) *simkit.Violation {
 		}
 		buf := simkit.Exact(data)
 		switch sc.Entry {
+		case "reused-parser":
+			sw := &swapVisitor{}
+			p := cd.NewParser(sw).(interface {
+				Parse([]byte) error
+				ParseString(string) error
+			})
+			for _, pd := range pre {
+				pt := simkit.NewTap(nil)
+				pt.NoRecord = true
+				if pd.failAt >= 0 {
+					at := pd.failAt
+					pt.Hook = func(idx int, _ *simkit.Ev) error {
+						if idx >= at {
+							return errEarlier
+						}
+						return nil
+					}
+				}
+				sw.Visitor = pt
+				if pd.str {
+					p.ParseString(string(pd.data))
+				} else {
+					p.Parse(simkit.Exact(pd.data))
+				}
+			}
+			sw.Visitor = t
+			if lastStr {
+				return p.ParseString(string(buf))
+			}
+			return p.Parse(buf)
 		case "parse":
 			return cd.Parse(buf, vs)
 		case "parsestring":
@@ -453,14 +540,14 @@ func parserFaults(c *simkit.Choices, x *simkit.Ctx) *simkit.Violation {
 			_, err := simkit.Feed(cd.NewParser(vs), buf, sc.Cuts, true, &x.Clock)
 			return err
 		case "reader":
-			_, err := cd.ParseReader(&simkit.Reader{Data: buf, Sizes: sc.Reads, Clock: &x.Clock}, vs)
+			_, err := cd.ParseReader(&simkit.Reader{Data: buf, Sizes: sc.Reads, Clock: &x.Clock, FailAt: readFailsAt, FailWithData: true, FailErr: errTransport}, vs)
 			return err
 		default:
 			var dec common.Decoder
 			if sc.Entry == "decoder-bytes" {
 				dec = cd.NewBytesDecoder(buf, vs)
 			} else {
-				dec = cd.NewDecoder(&simkit.Reader{Data: buf, Sizes: sc.Reads, Clock: &x.Clock}, sc.BufSize, vs)
+				dec = cd.NewDecoder(&simkit.Reader{Data: buf, Sizes: sc.Reads, Clock: &x.Clock, FailAt: readFailsAt, FailWithData: true, FailErr: errTransport}, sc.BufSize, vs)
 			}
 			for i := 0; i < nvals; i++ {
 				if err := dec.Next(); err != nil {
@@ -470,13 +557,18 @@ func parserFaults(c *simkit.Choices, x *simkit.Ctx) *simkit.Violation {
 			return nil
 		}
 	}
-	// dry run
+	// dry run (healthy transport)
 	dry := simkit.NewTap(nil)
 	dry.NoRecord = true
 	var dryErr error
+	readFailsAt = 0
 	if pi := simkit.Guard(func() { dryErr = run(dry) }); pi != nil || dryErr != nil {
 		st.Probe("parser-dry-run-failed")
 		return nil
+	}
+	readFailsAt = sc.ReadFailsAt
+	if readFailsAt > 0 {
+		st.Fault("read-returns-data-and-error")
 	}
 	total := dry.Count
 	if v := checkProducer(x, sc, "visitor/"+string(f)+"-parser/"+sc.Entry, total, pickKs(c, total), run); v != nil {
